@@ -27,6 +27,7 @@ class Interp(object):
     def __init__(self, ctx, engine):
         self.ctx = ctx
         self.engine = engine
+        ctx.it = self
 
     # ------------------------------------------------------------------
     # raising
